@@ -46,6 +46,18 @@ fn scenarios(which: Which, u: &Universe, arch: &Arch, n: usize) -> Vec<Scenario>
         }
         v.push(mk(Some(arch.source.clone()), true, vec![]));
     }
+    if which == Which::C02 {
+        // the output itself as one more seed, combined with a seed file: every prior of <= 2 letters
+        // x every seed of <= 2 letters (the order in which the two kinds of seed are consumed matters)
+        for p in seqs(letters.len(), 2) {
+            for s in seqs(letters.len(), 2) {
+                if p.is_empty() || s.is_empty() || (p.len() == 2 && s.len() == 2 && (p[0] + s[1]) % 3 != 0) {
+                    continue; // 2x2-letter combinations: a deterministic third
+                }
+                v.push(mk(Some(u.concat(&letters, &p)), true, vec![u.concat(&letters, &s)]));
+            }
+        }
+    }
     if which == Which::C06 {
         for p in seqs(letters.len(), 1) {
             // existing file that is overwritten, not used as seed
